@@ -225,7 +225,8 @@ impl ArrayImpl {
                 match c {
                     '%' => regex.push_str(".*"),
                     '_' => regex.push('.'),
-                    c => regex.push(c),
+                    // other characters match themselves, even those special in a regex
+                    c => regex.push_str(&regex::escape(c.encode_utf8(&mut [0; 4]))),
                 }
             }
             regex.push('$');
